@@ -225,6 +225,8 @@ def payload_set_invariant(total):
             check(_shape(s2) == _shape(t2), "the order in which fragments arrive does not matter")
             check(_shape(me._update_payload_set(list(s2), pa)) == _shape(s2), "a repeated fragment changes nothing")
     check(len(s2) == total, "the set has one slot per announced fragment")
+    if ghost("rejected") and total > 1:
+        check(None in s2, "a complete set whose blob is rejected is restarted from the last fragment (the transfer can go on)")
 
 
 def kf_313f(inp):
